@@ -141,6 +141,24 @@ theorem only_disconnect_closes_the_protocol :
     (Skeletons.all.filter fun p => (Coop.actions .call p.2).contains "self._protocol.disconnect").map (·.1) =
       ["async_spa.py:GeckoAsyncSpa.disconnect"] := by decide +kernel
 
+/-- **every answered ping is announced**: in the regenerated skeleton of the ping loop, on every path from "a reply came"
+(`ping_handler is not None`) to the end of that iteration the client handler is awaited with RUNNING_PING_RECEIVED - the event
+the manager's `pingResetStates` rule needs (the input `.ping true` of the model); it does not depend on whether an earlier ping
+was missed, so an error state reached while pings keep being answered (an RFERR to a refresh, exhausted retries) is left too -/
+theorem every_answered_ping_is_announced :
+    Coop.alwaysResponds (Coop.isBranch true "ping_handler is not None")
+      (Coop.isAwaitOf "self._event_handler(GeckoSpaEvent.RUNNING_PING_RECEIVED)") (Coop.isAwaitOf "config_sleep")
+      Skeletons.sk_async_spa__GeckoAsyncSpa__ping_loop = true ∧
+    "ping_handler is not None" ∈ Coop.actions .brT Skeletons.sk_async_spa__GeckoAsyncSpa__ping_loop := by decide +kernel
+
+/-- non-vacuity: an announcement made only for the first reply after a miss is rejected -/
+example : Coop.alwaysResponds (Coop.isBranch true "ping_handler is not None")
+    (Coop.isAwaitOf "self._event_handler(GeckoSpaEvent.RUNNING_PING_RECEIVED)") (Coop.isAwaitOf "config_sleep")
+    (.loop (.seq (.ev (.act ⟨.brT, "ping_handler is not None"⟩))
+      (.seq (.alt (.seq (.ev (.act ⟨.brT, "missed"⟩)) (.ev (.aw "self._event_handler(GeckoSpaEvent.RUNNING_PING_RECEIVED)")))
+                  (.ev (.act ⟨.brF, "missed"⟩)))
+            (.ev (.aw "config_sleep"))))) = false := by decide +kernel
+
 /-- **an unreachable spa is reported**: from CONNECTED, a ping that stays unanswered beyond the not-responding timeout
 takes the manager out of CONNECTED -/
 theorem unreachable_reported : ∀ s ∈ allR, Coherent s = true → connected s = true → connected (step s (.ping false)) = false := by
